@@ -525,6 +525,34 @@ def adder_channel_rules(rep, mod, fq, f, amap, sn):
         raise AnalysisError(f"{fq}: no `{amap}.append(...)` reached on any path (anchor vanished)")
 
 
+def item_equality_looks_at_other(prog, rep, rule="removal-by-equality"):
+    """Removal by object goes through `in` / `list.index`, i.e. through the item class's __eq__: the item found is the FIRST one equal
+    to the argument.  A term of that __eq__ that compares an attribute of `self` with the same attribute of `self` is always true,
+    so items differing only in it are taken for one another and the wrong pair (item, channel) is removed."""
+    n = 0
+    for m in prog.modules.values():
+        for c in m.classes.values():
+            f = c.get("__eq__")
+            if f is None or len(f.params) < 1:
+                continue
+            sn = f.self_name or "self"
+            bad = []
+            for x in walk_no_nested(f.node):
+                pairs = []
+                if isinstance(x, ast.Compare) and len(x.ops) == 1 and isinstance(x.ops[0], (ast.Eq, ast.NotEq)):
+                    pairs.append((x.left, x.comparators[0]))
+                if isinstance(x, ast.Call) and norm(x.func).split(".")[-1] in ("allclose", "array_equal", "isclose", "array_equiv") and len(x.args) >= 2:
+                    pairs.append((x.args[0], x.args[1]))
+                for a, b in pairs:
+                    n += 1
+                    if norm(a) == norm(b) and any(isinstance(y, ast.Name) and y.id == sn for y in ast.walk(a)):
+                        bad.append((x, a))
+            for x, a in bad:
+                rep.fail(rule, m.path.name, f"{c.name}.__eq__", x, f"`{norm(x)[:70]}` compares `{norm(a)}` with itself: items that differ only there are equal to one another, so removal by object "
+                         "(`in` / list.index) takes the first such item and its channel instead of the one handed in", construct=f"{c.name}.__eq__ :: {norm(a)} compared with itself")
+    rep.ok(rule, f"{n} comparison terms in the package's __eq__ methods: none compares an attribute with itself")
+
+
 def run(prog, rep):
     cd = Codecs(prog)
     cd.flag_errors(rep)
@@ -544,6 +572,7 @@ def run(prog, rep):
         if {a, b} != {amap, items}:
             raise AnalysisError(f"{cname}: parallel pair is now ({a}, {b}); the rule instance table lists ({amap}, {items})")
         n += check_class(prog, cd, rep, cname, amap, items, c)
+    rep.attempt(item_equality_looks_at_other, prog, rep)
     rep.floor("parallel pairs", len(EXPECTED), 3)
     rep.floor("paired-mutation/methods", n, 6)
     rep.note("ForcePlatformsDataBlock.platforms assignment appends to the existing platforms and is not atomic; alignment is kept, which is all C15 asks")
